@@ -142,7 +142,8 @@ def check_objects(res, rng, t, reps):
         check_pair(res, t, 'plane', 'antiparallel', Xa, Xb, inpd, sited)
     # repaired defect 19, deterministically: point pairs A^B and +-(B^C) that share the point B in different slots; for one orientation X2*X1 has the
     # scalar part -1, 1 + X2*X1 is null and the half turn of the special branch leaves the pair in a position of the same kind
-    for tri in ([(4, -3, 3), (3, 4, 3), (-4, 3, 3)], [(0, 0, 2), (4, -4, -3), (3, 4, -2)], [(-2, 3, -1), (-2, 3, -2), (-1, 1, 0)], [(4, -3, 0), (-2, -4, 2), (-4, -2, 0)]):
+    for tri in ([(4, -3, 3), (3, 4, 3), (-4, 3, 3)], [(0, 0, 2), (4, -4, -3), (3, 4, -2)], [(-2, 3, -1), (-2, 3, -2), (-1, 1, 0)], [(4, -3, 0), (-2, -4, 2), (-4, -2, 0)],
+                [(-3, -3, 4), (0, 0, 0), (2, 2, 1)], [(1, 0, 0), (0, 0, 0), (0, 2, 0)]):      # the shared point at the origin: no half turn to take (defect 20)
         ptsd = [float(a) * t.e1 + float(b) * t.e2 + float(c) * t.e3 for a, b, c in tri]
         Xa = build('point_pair', ptsd[:2], t).normal()
         for sg in (1, -1):
